@@ -319,4 +319,318 @@ theorem segment_F0c_begin (es : List Expr) (hne : es ≠ []) (he : F0cList es = 
     rs' = rs ∧ Pushes code v :=
   (claims n).2.1 es hne he isFn c gs ((code, t), gs') hc env rs v rs' hr
 
+/-! ## `compile` is total on F0c and leaves the generator state alone -/
+
+mutual
+theorem compile_total : ∀ (e : Expr), F0c e = true → ∀ isFn c gs, ∃ code, (compile isFn c e).run gs = .ok ((code, c.tail), gs)
+  | .int v, _, isFn, c, gs => ⟨_, by rw [compile]; rfl⟩
+  | .bool v, _, isFn, c, gs => ⟨_, by rw [compile]; rfl⟩
+  | .str v, _, isFn, c, gs => ⟨_, by rw [compile]; rfl⟩
+  | .nilLit, _, isFn, c, gs => ⟨_, by rw [compile]; rfl⟩
+  | .begin_ es, he, isFn, c, gs => by
+    rw [F0c] at he
+    simp only [Bool.and_eq_true, Bool.not_eq_true', List.isEmpty_eq_false_iff] at he
+    rw [compile]
+    exact compileBegin_total es he.1 he.2 isFn c gs
+  | .cond arms d, he, isFn, c, gs => by
+    rw [F0c] at he
+    simp only [Bool.and_eq_true] at he
+    obtain ⟨dc, hd⟩ := compile_total d he.2 isFn c gs
+    obtain ⟨as, has⟩ := compileArms_total arms he.1 isFn c gs
+    refine ⟨asmCond as dc, ?_⟩
+    rw [compile]
+    simp only [g_bind_ok, g_pure_ok]
+    exact ⟨_, _, hd, _, _, has, rfl⟩
+  | .and_ es, he, isFn, c, gs => by
+    rw [F0c] at he
+    obtain ⟨cs, hcs⟩ := compileSC_total es he isFn c gs
+    refine ⟨asmSC false cs, ?_⟩
+    rw [compile]
+    simp only [g_bind_ok, g_pure_ok]
+    exact ⟨_, _, hcs, rfl⟩
+  | .or_ es, he, isFn, c, gs => by
+    rw [F0c] at he
+    obtain ⟨cs, hcs⟩ := compileSC_total es he isFn c gs
+    refine ⟨asmSC true cs, ?_⟩
+    rw [compile]
+    simp only [g_bind_ok, g_pure_ok]
+    exact ⟨_, _, hcs, rfl⟩
+  | .sym _, he, _, _, _ | .arr _, he, _, _, _ | .call _ _, he, _, _, _ | .def_ _ _, he, _, _, _
+  | .set_ _ _, he, _, _, _ | .let_ _ _ _, he, _, _, _ | .newScope _, he, _, _, _
+  | .for_ _ _ _ _ _, he, _, _, _ | .break_ _, he, _, _, _ | .continue_ _, he, _, _, _
+  | .fn _ _ _, he, _, _, _ | .defn _ _ _ _, he, _, _, _ | .assign _ _, he, _, _, _ | .bad _, he, _, _, _ => by
+    simp [F0c] at he
+theorem compileBegin_total : ∀ (es : List Expr), es ≠ [] → F0cList es = true → ∀ isFn c gs, ∃ code, (compileBegin isFn c es).run gs = .ok ((code, c.tail), gs)
+  | [], hne, _, _, _, _ => absurd rfl hne
+  | [e], _, he, isFn, c, gs => by
+    rw [F0cList] at he
+    simp only [Bool.and_eq_true] at he
+    rw [compileBegin]
+    exact compile_total e he.1 isFn c gs
+  | e :: e' :: es, _, he, isFn, c, gs => by
+    rw [F0cList] at he
+    simp only [Bool.and_eq_true] at he
+    obtain ⟨a, ha⟩ := compile_total e he.1 isFn { c with tail := false } gs
+    obtain ⟨b, hb⟩ := compileBegin_total (e' :: es) (by simp) he.2 isFn c gs
+    rw [compileBegin]
+    · simp only [g_bind_ok, g_pure_ok]
+      exact ⟨_, ⟨_, _, ha, _, _, hb, rfl⟩⟩
+    · intro hh; cases hh
+theorem compileSC_total : ∀ (es : List Expr), F0cList es = true → ∀ isFn c gs, ∃ cs, (compileSC isFn c es).run gs = .ok (cs, gs)
+  | [], _, isFn, c, gs => ⟨[], by rw [compileSC]; rfl⟩
+  | [e], he, isFn, c, gs => by
+    rw [F0cList] at he
+    simp only [Bool.and_eq_true] at he
+    obtain ⟨a, ha⟩ := compile_total e he.1 isFn c gs
+    rw [compileSC]
+    simp only [g_bind_ok, g_pure_ok]
+    exact ⟨_, _, _, ha, rfl⟩
+  | e :: e' :: es, he, isFn, c, gs => by
+    rw [F0cList] at he
+    simp only [Bool.and_eq_true] at he
+    obtain ⟨a, ha⟩ := compile_total e he.1 isFn { c with tail := false } gs
+    obtain ⟨b, hb⟩ := compileSC_total (e' :: es) he.2 isFn c gs
+    rw [compileSC]
+    · simp only [g_bind_ok, g_pure_ok]
+      exact ⟨_, _, _, hb, _, _, ha, rfl⟩
+    · intro hh; cases hh
+theorem compileArms_total : ∀ (arms : List (Expr × Expr)), F0cArms arms = true → ∀ isFn c gs, ∃ as, (compileArms isFn c arms).run gs = .ok (as, gs)
+  | [], _, isFn, c, gs => ⟨[], by rw [compileArms]; rfl⟩
+  | (p, b) :: arms, he, isFn, c, gs => by
+    rw [F0cArms] at he
+    simp only [Bool.and_eq_true] at he
+    obtain ⟨pc, hp⟩ := compile_total p he.1.1 isFn { c with tail := false, scopes := 0 } gs
+    obtain ⟨bc, hb⟩ := compile_total b he.1.2 isFn c gs
+    obtain ⟨r, hr⟩ := compileArms_total arms he.2 isFn c gs
+    rw [compileArms]
+    simp only [g_bind_ok, g_pure_ok]
+    exact ⟨_, _, _, hr, _, _, hp, _, _, hb, rfl⟩
+end
+
+
+/-! ## The reference evaluator is total on F0c -/
+
+mutual
+/-- a fuel that suffices for the reference evaluator (the size of the expression) -/
+def esize : Expr → Nat
+  | .begin_ es => 1 + esizeList es
+  | .cond arms d => 1 + esizeArms arms + esize d
+  | .and_ es => 1 + esizeList es
+  | .or_ es => 1 + esizeList es
+  | _ => 1
+def esizeList : List Expr → Nat
+  | [] => 1
+  | e :: es => 1 + esize e + esizeList es
+def esizeArms : List (Expr × Expr) → Nat
+  | [] => 1
+  | (p, b) :: r => 1 + esize p + esize b + esizeArms r
+end
+
+theorem esize_pos (e : Expr) : 1 ≤ esize e := by
+  cases e <;> simp [esize] <;> omega
+
+mutual
+theorem refEval_total : ∀ (e : Expr), F0c e = true → ∀ n, esize e ≤ n → ∀ env rs, ∃ v, Ref.eval n e env rs = .ok v rs
+  | .int v, _, n, hn, env, rs => by
+    obtain ⟨m, rfl⟩ : ∃ m, n = m + 1 := ⟨n - 1, by have := esize_pos (Expr.int v); omega⟩
+    exact ⟨_, by rw [Ref.eval]⟩
+  | .bool v, _, n, hn, env, rs => by
+    obtain ⟨m, rfl⟩ : ∃ m, n = m + 1 := ⟨n - 1, by have := esize_pos (Expr.bool v); omega⟩
+    exact ⟨_, by rw [Ref.eval]⟩
+  | .str v, _, n, hn, env, rs => by
+    obtain ⟨m, rfl⟩ : ∃ m, n = m + 1 := ⟨n - 1, by have := esize_pos (Expr.str v); omega⟩
+    exact ⟨_, by rw [Ref.eval]⟩
+  | .nilLit, _, n, hn, env, rs => by
+    obtain ⟨m, rfl⟩ : ∃ m, n = m + 1 := ⟨n - 1, by have := esize_pos (Expr.nilLit); omega⟩
+    exact ⟨_, by rw [Ref.eval]⟩
+  | .begin_ es, he, n, hn, env, rs => by
+    rw [F0c] at he
+    simp only [Bool.and_eq_true, Bool.not_eq_true', List.isEmpty_eq_false_iff] at he
+    rw [esize] at hn
+    obtain ⟨m, rfl⟩ : ∃ m, n = m + 1 := ⟨n - 1, by omega⟩
+    rw [Ref.eval]
+    exact refBegin_total es he.1 he.2 m (by omega) env rs
+  | .cond arms d, he, n, hn, env, rs => by
+    rw [F0c] at he
+    simp only [Bool.and_eq_true] at he
+    rw [esize] at hn
+    obtain ⟨m, rfl⟩ : ∃ m, n = m + 1 := ⟨n - 1, by omega⟩
+    rw [Ref.eval]
+    exact refCond_total arms he.1 d (refEval_total d he.2) m (by omega) env rs
+  | .and_ es, he, n, hn, env, rs => by
+    rw [F0c] at he
+    rw [esize] at hn
+    obtain ⟨m, rfl⟩ : ∃ m, n = m + 1 := ⟨n - 1, by omega⟩
+    rw [Ref.eval]
+    exact refSC_total es he false m (by omega) env rs
+  | .or_ es, he, n, hn, env, rs => by
+    rw [F0c] at he
+    rw [esize] at hn
+    obtain ⟨m, rfl⟩ : ∃ m, n = m + 1 := ⟨n - 1, by omega⟩
+    rw [Ref.eval]
+    exact refSC_total es he true m (by omega) env rs
+  | .sym _, he, _, _, _, _ | .arr _, he, _, _, _, _ | .call _ _, he, _, _, _, _ | .def_ _ _, he, _, _, _, _
+  | .set_ _ _, he, _, _, _, _ | .let_ _ _ _, he, _, _, _, _ | .newScope _, he, _, _, _, _
+  | .for_ _ _ _ _ _, he, _, _, _, _ | .break_ _, he, _, _, _, _ | .continue_ _, he, _, _, _, _
+  | .fn _ _ _, he, _, _, _, _ | .defn _ _ _ _, he, _, _, _, _ | .assign _ _, he, _, _, _, _ | .bad _, he, _, _, _, _ => by
+    simp [F0c] at he
+theorem refBegin_total : ∀ (es : List Expr), es ≠ [] → F0cList es = true → ∀ n, esizeList es ≤ n → ∀ env rs, ∃ v, Ref.evalBegin n es env rs = .ok v rs
+  | [], hne, _, _, _, _, _ => absurd rfl hne
+  | [e], _, he, n, hn, env, rs => by
+    rw [F0cList] at he
+    simp only [Bool.and_eq_true] at he
+    rw [esizeList] at hn
+    obtain ⟨m, rfl⟩ : ∃ m, n = m + 1 := ⟨n - 1, by omega⟩
+    rw [Ref.evalBegin]
+    exact refEval_total e he.1 m (by omega) env rs
+  | e :: e' :: es, _, he, n, hn, env, rs => by
+    rw [F0cList] at he
+    simp only [Bool.and_eq_true] at he
+    rw [esizeList] at hn
+    obtain ⟨m, rfl⟩ : ∃ m, n = m + 1 := ⟨n - 1, by omega⟩
+    obtain ⟨v1, h1⟩ := refEval_total e he.1 m (by omega) env rs
+    rw [Ref.evalBegin]
+    · rw [h1]
+      exact refBegin_total (e' :: es) (by simp) he.2 m (by omega) env rs
+    · intro hh; cases hh
+theorem refCond_total : ∀ (arms : List (Expr × Expr)), F0cArms arms = true → ∀ d,
+    (∀ n, esize d ≤ n → ∀ env rs, ∃ v, Ref.eval n d env rs = .ok v rs) →
+    ∀ n, esizeArms arms + esize d ≤ n → ∀ env rs, ∃ v, Ref.evalCond n arms d env rs = .ok v rs
+  | [], _, d, hd, n, hn, env, rs => by
+    rw [esizeArms] at hn
+    obtain ⟨m, rfl⟩ : ∃ m, n = m + 1 := ⟨n - 1, by omega⟩
+    rw [Ref.evalCond]
+    exact hd m (by omega) env rs
+  | (p, b) :: arms, he, d, hd, n, hn, env, rs => by
+    rw [F0cArms] at he
+    simp only [Bool.and_eq_true] at he
+    rw [esizeArms] at hn
+    obtain ⟨m, rfl⟩ : ∃ m, n = m + 1 := ⟨n - 1, by omega⟩
+    obtain ⟨v1, h1⟩ := refEval_total p he.1.1 m (by omega) env rs
+    rw [Ref.evalCond, h1]
+    simp only
+    split
+    · exact refEval_total b he.1.2 m (by omega) env rs
+    · exact refCond_total arms he.2 d hd m (by omega) env rs
+theorem refSC_total : ∀ (es : List Expr), F0cList es = true → ∀ isOr n, esizeList es ≤ n → ∀ env rs, ∃ v, Ref.evalAndOr n isOr es env rs = .ok v rs
+  | [], _, isOr, n, hn, env, rs => by
+    rw [esizeList] at hn
+    obtain ⟨m, rfl⟩ : ∃ m, n = m + 1 := ⟨n - 1, by omega⟩
+    refine ⟨.bool (!isOr), ?_⟩
+    rw [Ref.evalAndOr]
+    omega
+  | [e], he, isOr, n, hn, env, rs => by
+    rw [F0cList] at he
+    simp only [Bool.and_eq_true] at he
+    rw [esizeList] at hn
+    obtain ⟨m, rfl⟩ : ∃ m, n = m + 1 := ⟨n - 1, by omega⟩
+    rw [Ref.evalAndOr]
+    exact refEval_total e he.1 m (by omega) env rs
+  | e :: e' :: es, he, isOr, n, hn, env, rs => by
+    rw [F0cList] at he
+    simp only [Bool.and_eq_true] at he
+    rw [esizeList] at hn
+    obtain ⟨m, rfl⟩ : ∃ m, n = m + 1 := ⟨n - 1, by omega⟩
+    obtain ⟨v1, h1⟩ := refEval_total e he.1 m (by omega) env rs
+    rw [Ref.evalAndOr]
+    · rw [h1]
+      simp only
+      split
+      · exact ⟨_, rfl⟩
+      · exact refSC_total (e' :: es) he.2 isOr m (by omega) env rs
+    · intro hh; cases hh
+end
+
+/-! ## On F0c the reference evaluator never fails: it yields a value or runs out of fuel -/
+
+/-- a value (state unchanged) or fuel exhaustion -/
+def OkOrTimeout (res : Ref.R Val) (rs : Ref.St) : Prop := (∃ v, res = .ok v rs) ∨ res = .timeout
+
+mutual
+theorem refEval_noFail : ∀ (e : Expr), F0c e = true → ∀ n env rs, OkOrTimeout (Ref.eval n e env rs) rs
+  | e, he, 0, env, rs => Or.inr (by rw [Ref.eval])
+  | .int v, _, m + 1, env, rs => Or.inl ⟨_, by rw [Ref.eval]⟩
+  | .bool v, _, m + 1, env, rs => Or.inl ⟨_, by rw [Ref.eval]⟩
+  | .str v, _, m + 1, env, rs => Or.inl ⟨_, by rw [Ref.eval]⟩
+  | .nilLit, _, m + 1, env, rs => Or.inl ⟨_, by rw [Ref.eval]⟩
+  | .begin_ es, he, m + 1, env, rs => by
+    rw [F0c] at he
+    simp only [Bool.and_eq_true, Bool.not_eq_true', List.isEmpty_eq_false_iff] at he
+    rw [Ref.eval]
+    exact refBegin_noFail es he.1 he.2 m env rs
+  | .cond arms d, he, m + 1, env, rs => by
+    rw [F0c] at he
+    simp only [Bool.and_eq_true] at he
+    rw [Ref.eval]
+    exact refCond_noFail arms he.1 d (refEval_noFail d he.2) m env rs
+  | .and_ es, he, m + 1, env, rs => by
+    rw [F0c] at he
+    rw [Ref.eval]
+    exact refSC_noFail es he false m env rs
+  | .or_ es, he, m + 1, env, rs => by
+    rw [F0c] at he
+    rw [Ref.eval]
+    exact refSC_noFail es he true m env rs
+  | .sym _, he, _ + 1, _, _ | .arr _, he, _ + 1, _, _ | .call _ _, he, _ + 1, _, _ | .def_ _ _, he, _ + 1, _, _
+  | .set_ _ _, he, _ + 1, _, _ | .let_ _ _ _, he, _ + 1, _, _ | .newScope _, he, _ + 1, _, _
+  | .for_ _ _ _ _ _, he, _ + 1, _, _ | .break_ _, he, _ + 1, _, _ | .continue_ _, he, _ + 1, _, _
+  | .fn _ _ _, he, _ + 1, _, _ | .defn _ _ _ _, he, _ + 1, _, _ | .assign _ _, he, _ + 1, _, _ | .bad _, he, _ + 1, _, _ => by
+    simp [F0c] at he
+theorem refBegin_noFail : ∀ (es : List Expr), es ≠ [] → F0cList es = true → ∀ n env rs, OkOrTimeout (Ref.evalBegin n es env rs) rs
+  | [], hne, _, _, _, _ => absurd rfl hne
+  | es, _, _, 0, env, rs => Or.inr (by rw [Ref.evalBegin])
+  | [e], _, he, m + 1, env, rs => by
+    rw [F0cList] at he
+    simp only [Bool.and_eq_true] at he
+    rw [Ref.evalBegin]
+    exact refEval_noFail e he.1 m env rs
+  | e :: e' :: es, _, he, m + 1, env, rs => by
+    rw [F0cList] at he
+    simp only [Bool.and_eq_true] at he
+    rw [Ref.evalBegin]
+    · rcases refEval_noFail e he.1 m env rs with ⟨v1, h1⟩ | h1
+      · rw [h1]
+        exact refBegin_noFail (e' :: es) (by simp) he.2 m env rs
+      · rw [h1]; exact Or.inr rfl
+    · intro hh; cases hh
+theorem refCond_noFail : ∀ (arms : List (Expr × Expr)), F0cArms arms = true → ∀ d,
+    (∀ n env rs, OkOrTimeout (Ref.eval n d env rs) rs) →
+    ∀ n env rs, OkOrTimeout (Ref.evalCond n arms d env rs) rs
+  | arms, _, d, hd, 0, env, rs => Or.inr (by rw [Ref.evalCond])
+  | [], _, d, hd, m + 1, env, rs => by
+    rw [Ref.evalCond]
+    exact hd m env rs
+  | (p, b) :: arms, he, d, hd, m + 1, env, rs => by
+    rw [F0cArms] at he
+    simp only [Bool.and_eq_true] at he
+    rw [Ref.evalCond]
+    rcases refEval_noFail p he.1.1 m env rs with ⟨v1, h1⟩ | h1
+    · rw [h1]
+      simp only
+      split
+      · exact refEval_noFail b he.1.2 m env rs
+      · exact refCond_noFail arms he.2 d hd m env rs
+    · rw [h1]; exact Or.inr rfl
+theorem refSC_noFail : ∀ (es : List Expr), F0cList es = true → ∀ isOr n env rs, OkOrTimeout (Ref.evalAndOr n isOr es env rs) rs
+  | es, _, isOr, 0, env, rs => Or.inr (by rw [Ref.evalAndOr])
+  | [], _, isOr, m + 1, env, rs => Or.inl ⟨.bool (!isOr), by rw [Ref.evalAndOr]; omega⟩
+  | [e], he, isOr, m + 1, env, rs => by
+    rw [F0cList] at he
+    simp only [Bool.and_eq_true] at he
+    rw [Ref.evalAndOr]
+    exact refEval_noFail e he.1 m env rs
+  | e :: e' :: es, he, isOr, m + 1, env, rs => by
+    rw [F0cList] at he
+    simp only [Bool.and_eq_true] at he
+    rw [Ref.evalAndOr]
+    · rcases refEval_noFail e he.1 m env rs with ⟨v1, h1⟩ | h1
+      · rw [h1]
+        simp only
+        split
+        · exact Or.inl ⟨_, rfl⟩
+        · exact refSC_noFail (e' :: es) he.2 isOr m env rs
+      · rw [h1]; exact Or.inr rfl
+    · intro hh; cases hh
+end
+
 end ZygoVerif.Sim
